@@ -204,6 +204,58 @@ func c08Echo(c *caseCtx) {
 	}
 }
 
+// biases that never fire (probability 0) change nothing: the answer - verdict and ranking - is the one of the request
+// without biases, also for requests the service refuses (e.g. a method name it does not know as spelled)
+func c08NeverFiring(c *caseCtx) {
+	method := methods[c.idx%len(methods)]
+	g := genRequest(c.rng, genOpts{method: method, nBiases: 1 + c.rng.Intn(3), minCrit: 1, maxCrit: 4, minAlt: 1, maxAlt: 4})
+	var bs []interface{}
+	for _, b := range g.M["biases"].([]interface{}) {
+		b.(M)["applyProbability"] = 0.0
+		bs = append(bs, b)
+		if c.rng.Intn(3) == 0 {
+			bs = append(bs, disabledJunk(c.rng))
+		}
+	}
+	g.M["biases"] = bs
+	switch c.rng.Intn(12) {
+	case 0:
+		g.M["preferenceFunction"] = method + " "
+	case 1:
+		g.M["preferenceFunction"] = " " + method
+	case 2:
+		g.M["preferenceFunction"] = "noSuchMethod"
+	}
+	d := decide(g.body(), false)
+	p := deepCopyM(g.M)
+	delete(p, "biases")
+	d0 := decide((&genReq{M: p, method: method}).body(), false)
+	c.count("evaluations", 2)
+	if d.OK != d0.OK {
+		c.violate("never-firing-changes-verdict", fmt.Sprintf("with biases that never fire (probability 0) the request is accepted=%v (%s), without them accepted=%v (%s)", d.OK, d.Err, d0.OK, d0.Err), M{"request": g.M})
+		return
+	}
+	if !d.OK {
+		c.count("never_firing_both_rejected", 1)
+		return
+	}
+	for i, b := range d.View.Biases {
+		if b.Props != nil {
+			c.violate("fired-at-zero", fmt.Sprintf("biases[%d] %s has probability 0 but reports props", i, b.Name), M{"request": g.M})
+			return
+		}
+	}
+	a, _ := json.Marshal(d.View.Result)
+	b, _ := json.Marshal(d0.View.Result)
+	if !bytes.Equal(a, b) {
+		c.violate("never-firing-changes-result", "biases that never fire change the ranking", M{"request": g.M, "with": string(a), "without": string(b)})
+		return
+	}
+	c.count("never_firing_compared", 1)
+	c.count("nontrivial", 1)
+	c.distinct(fmt.Sprintf("never|%s|%d", method, len(bs)))
+}
+
 const c08Grid = 32
 
 func thresholdOf(c *caseCtx, g *genReq, entries []M, pos int) (int, bool) {
@@ -450,6 +502,8 @@ func init() {
 			{name: "echo", n: tierN(14000, 300000), unit: 3500, run: c08Echo, floors: map[string]int64{"echo_checked": 8000, "disabled_equivalence_checked": 4000, "http_path_compared": 8000}},
 			{name: "echo-service", n: tierN(3000, 50000), unit: 1500, run: c08Echo, service: true,
 				note: "the same generator and oracle as the stream named in front of the dash, but every request goes through decideHandler of main.go in-process (gin binding, the handler's own request object) after a history of 1..3 unrelated requests (accepted and rejected)"},
+			{name: "neverFiring", n: tierN(4000, 60000), unit: 2000, run: c08NeverFiring, floors: map[string]int64{"never_firing_compared": 2500},
+				note: "1..3 biases with probability 0 (plus disabled entries) against the same request without biases: same verdict, same result; ~17% with a method name the service does not know as spelled"},
 			{name: "threshold", n: tierN(600, 12000), unit: 75, run: c08Threshold, floors: map[string]int64{"thresholds_checked": 500, "independence_checked": 1000}},
 			{name: "frequency", n: tierN(20, 200), unit: 2, run: c08Frequency, floors: map[string]int64{"frequency_batteries": 20}},
 			{name: "processes", n: tierN(2, 12), unit: 1, run: c08Processes, floors: map[string]int64{"seed_families_cross_process": 40},
